@@ -11,10 +11,11 @@ section
 variable (env : Env) (I : Table) (enc : Enc) (dec : Dec) (conf : Nat → Val → Bool)
 
 theorem goodFields (τ : Nat)
-    (hgood : ∀ j, j < τ → (look I j).sup = true → Good I enc dec conf j)
+    (hgood : ∀ j, j < τ → Good I enc dec conf j)
+    (hff : ∀ j, j < τ → FailFast I dec j)
     (hstop : ∀ r j, (kindOf env r = .seqOf j ∨ kindOf env r = .listOf j) → ListStop dec j) :
     ∀ (fs : List Field) (vs : List (Option Val)),
-      fs.all (fieldSane env I τ) = true → fs.all (fieldSup env I) = true → seqOK env I fs = true →
+      fs.all (fieldSane env I τ) = true → seqOK env I fs = true →
       conformsFields env conf fs vs = true →
       ∃ ts, encodeFields env enc fs vs = .ok ts ∧
         HeadOK (firstFields env I fs) (nullableFields env I fs) ts ∧
@@ -23,13 +24,13 @@ theorem goodFields (τ : Nat)
   intro fs
   induction fs with
   | nil =>
-    intro vs _ _ _ hc
+    intro vs _ _ hc
     cases vs with
     | nil => exact ⟨[], rfl, by simp [HeadOK, nullableFields], fun rest _ => by simp [decodeFields]⟩
     | cons v vs => simp [conformsFields] at hc
   | cons f fs ih =>
-    intro vs hsane hsup hok hc
-    simp only [List.all_cons, Bool.and_eq_true] at hsane hsup
+    intro vs hsane hok hc
+    simp only [List.all_cons, Bool.and_eq_true] at hsane
     simp only [seqOK, Bool.and_eq_true] at hok
     cases vs with
     | nil => simp [conformsFields] at hc
@@ -38,8 +39,8 @@ theorem goodFields (τ : Nat)
         cases ov with
         | none => simpa [conformsFields, confField] using hc
         | some v => simpa [conformsFields, confField] using hc
-      obtain ⟨ts1, he1, hh1, hd1⟩ := goodField env I enc dec conf τ f hgood hstop hsane.1 hsup.1 ov hcf.1
-      obtain ⟨ts2, he2, hh2, hd2⟩ := ih vs hsane.2 hsup.2 hok.2 hcf.2
+      obtain ⟨ts1, he1, hh1, hd1⟩ := goodField env I enc dec conf τ f hgood hff hstop hsane.1 ov hcf.1
+      obtain ⟨ts2, he2, hh2, hd2⟩ := ih vs hsane.2 hok.2 hcf.2
       refine ⟨ts1 ++ ts2, by simp [encodeFields, he1, he2], ?_, ?_⟩
       · -- first tag
         cases ts1 with
@@ -72,6 +73,50 @@ theorem goodFields (τ : Nat)
         have h1 := hd1 (ts2 ++ rest) hs1
         have h2 := hd2 rest hs2
         simp [decodeFields, List.append_assoc, h1, h2]
+
+/-- a sequence whose first element is required and announces its tag refuses any
+    other first tag with InvalidTag (or the caught error of the structure inside) -/
+theorem fields_failfast (τ : Nat) (f : Field) (fs : List Field)
+    (hff : ∀ j, j < τ → FailFast I dec j)
+    (hsane : fieldSane env I τ f = true) (hf : fieldFF env I f = true)
+    (t : Tag) (r : List Tag) (hcl : t.cls ≠ .closing)
+    (hn : ∀ p ∈ fieldFirst env I f, p.matches t = false) :
+    ∃ e, decodeFields env dec (f :: fs) (t :: r) = .error e ∧ (e = .decoding ∨ e = .invalidTag) := by
+  obtain ⟨ref, ctx, opt⟩ := f
+  unfold fieldFF at hf
+  unfold fieldSane at hsane
+  unfold fieldFirst at hn
+  simp only [Bool.and_eq_true, Bool.not_eq_eq_eq_not, Bool.not_true] at hf
+  obtain ⟨hopt, hf⟩ := hf
+  subst hopt
+  have key : ∃ e, decodeField env dec ⟨ref, ctx, false⟩ (t :: r) = .error e ∧ (e = .decoding ∨ e = .invalidTag) := by
+    unfold decodeField
+    simp only [hcl, ↓reduceIte]
+    cases hk : kindOf env ref with
+    | prim a =>
+      rw [hk] at hf hn
+      cases ctx with
+      | none => simp at hf
+      | some c => simp_all [Pat.matches]
+    | listOf j =>
+      rw [hk] at hf hn
+      cases ctx with
+      | none => simp at hf
+      | some c => simp_all [Pat.matches]
+    | struct j =>
+      rw [hk] at hf hn hsane
+      cases ctx with
+      | some c => simp_all [Pat.matches]
+      | none =>
+        simp only [Bool.and_eq_true, decide_eq_true_eq] at hsane
+        simp only at hf hn
+        obtain ⟨e, he, hee⟩ := hff j hsane.2.1.1 hf t r hcl hn
+        exact ⟨e, by simp [he], hee⟩
+    | anyAtomic => rw [hk] at hf; simp at hf
+    | seqOf j => rw [hk] at hf; cases ctx <;> simp at hf
+    | bad => rw [hk] at hf; simp at hf
+  obtain ⟨e, he, hee⟩ := key
+  exact ⟨e, by simp [decodeFields, he], hee⟩
 end
 
 end BacVerif.C03
